@@ -4,4 +4,37 @@ package safelog
 
 // Machine-checked contracts (read by /verif/engine; comment-only, compiled only with -tags verif).
 //
-// LogScrubber.buffer is serialised by the log.Logger that owns the writer, not by LogScrubber.lock: no declaration.
+// LogScrubber.buffer is serialised by the log.Logger that owns the writer, not by LogScrubber.lock: no guarded-by
+// declaration (C20).
+//
+// ---- line buffering of the scrubbing writer (C07) ----
+// What the regular expressions match is outside the verified code (package regexp); the contract is about which
+// bytes are handed to Scrub and to the sink:
+//   - Scrub is applied to one complete line at a time (so the pattern's ^ and $ anchors and its delimiter classes see
+//     every line boundary: the result cannot depend on how the bytes were split across writes),
+//   - the lines are consecutive segments of pending ++ b, in order, nothing skipped,
+//   - only the output of Scrub reaches the sink,
+//   - the bytes after the last newline stay pending, in storage the caller cannot reach.
+//@ default model int
+//@ func Scrub(b []byte) (r []byte)
+//@   props C07
+//@   flag nosafety
+//
+//@ ghost var scrubbedBase ref
+//@ ghost var pendBase ref
+//@ ghost var pendEnd int
+//@ func (ls *LogScrubber) Write(b []byte) (n int, err error)
+//@   props C07
+//@   requires ls != nil && ls.Output != nil
+//@   assumes cap(ls.buffer) == 0 || base(ls.buffer) != base(b)
+//@   assumes forall k int :: 0 <= k && k < len(ls.buffer) ==> ls.buffer[k] != 10
+//@   after call append ghost pendBase = base(ret0)
+//@   after call append ghost pendEnd = ret0.off + len(ret0)
+//@   loop 1 invariant {pending-is-the-unconsumed-suffix} base(ls.buffer) == pendBase && ls.buffer.off + len(ls.buffer) == pendEnd && calls(Scrub) == calls(Write) && n == len(b) && (cap(ls.buffer) > 0 ==> pendBase != base(b))
+//@   at call Scrub assert {one-complete-line-at-a-time} len(arg0) >= 1 && arg0[len(arg0)-1] == 10 && (forall k int :: 0 <= k && k < len(arg0) - 1 ==> arg0[k] != 10)
+//@   at call Scrub assert {lines-are-consecutive-segments} base(arg0) == base(ls.buffer) && arg0.off == ls.buffer.off
+//@   after call Scrub ghost scrubbedBase = base(ret0)
+//@   at call Write assert {only-scrubbed-lines-reach-the-sink} base(arg0) == scrubbedBase && calls(Scrub) == calls(Write) + 1
+//@   ensures {counts-all-bytes} n == len(b)
+//@   ensures {pending-has-no-newline} err == nil ==> (forall k int :: 0 <= k && k < len(ls.buffer) ==> ls.buffer[k] != 10)
+//@   ensures {pending-is-private} cap(ls.buffer) > 0 ==> base(ls.buffer) != base(b)
